@@ -9,8 +9,13 @@ package reftable
 
 import (
 	"fmt"
+	"hash"
+	"hash/fnv"
 	"io/ioutil"
 	"os"
+	"reflect"
+	"sort"
+	"strings"
 )
 
 type verifExhausted struct{}
@@ -30,6 +35,7 @@ var verifNative struct {
 	dirs     []string
 	monitors map[string]bool
 	monitorHits []string
+	frozen   []interface{}
 }
 
 func verifReset(vec []int64, tier int) {
@@ -38,6 +44,7 @@ func verifReset(vec []int64, tier int) {
 	verifNative.tier = tier
 	verifNative.covers = nil
 	verifNative.observes = nil
+	verifNative.frozen = nil
 	verifNative.monitors = map[string]bool{}
 	verifNative.monitorHits = nil
 	verifSchedReset()
@@ -149,7 +156,15 @@ func VerifQuiet(f func()) {
 func VerifShared(f func(i int) string) {
 	verifSched.quiet = true // the step trace is not goroutine-safe (and not compared here)
 	defer func() { verifSched.quiet = false }()
+	// one sequential run first: state that the code under test initialises
+	// lazily on first use shows up as a change of the frozen object graph
+	// (deterministic, where a race report would depend on which goroutine
+	// gets there first)
+	h0 := verifStateHash()
 	want := f(0)
+	if verifStateHash() != h0 {
+		panic(verifAssertFailed{"shared-state-written-by-a-read"})
+	}
 	for round := 0; round < 200; round++ {
 		var a, b string
 		done := make(chan struct{})
@@ -163,8 +178,111 @@ func VerifShared(f func(i int) string) {
 }
 
 // VerifFreeze marks everything reachable from v as shared between readers
-// (C19 frame condition); natively a no-op.
-func VerifFreeze(v interface{}) {}
+// (C19 frame condition).  Natively the object is remembered so that
+// VerifShared can compare its state before and after a read.
+func VerifFreeze(v interface{}) { verifNative.frozen = append(verifNative.frozen, v) }
+
+// verifStateHash digests the object graphs of the frozen values: the fields of
+// this package's types, followed through pointers, slices, maps and
+// interfaces; values of other packages' struct types (files, mutexes) are opaque.
+func verifStateHash() uint64 {
+	h := fnv.New64a()
+	seen := map[uintptr]bool{}
+	for _, v := range verifNative.frozen {
+		verifWalk(reflect.ValueOf(v), h, seen, 0)
+	}
+	return h.Sum64()
+}
+
+func verifWalk(v reflect.Value, h hash.Hash64, seen map[uintptr]bool, depth int) {
+	if depth > 64 || !v.IsValid() {
+		return
+	}
+	switch v.Kind() {
+	case reflect.Ptr:
+		if v.IsNil() {
+			h.Write([]byte{0})
+			return
+		}
+		h.Write([]byte{1})
+		p := v.Pointer()
+		if seen[p] {
+			return
+		}
+		seen[p] = true
+		verifWalk(v.Elem(), h, seen, depth+1)
+	case reflect.Interface:
+		if v.IsNil() {
+			h.Write([]byte{2})
+			return
+		}
+		h.Write([]byte(v.Elem().Type().String()))
+		verifWalk(v.Elem(), h, seen, depth+1)
+	case reflect.Struct:
+		if !strings.Contains(v.Type().PkgPath(), "reftable") {
+			h.Write([]byte(v.Type().String()))
+			return
+		}
+		for i := 0; i < v.NumField(); i++ {
+			verifWalk(v.Field(i), h, seen, depth+1)
+		}
+	case reflect.Slice:
+		if v.IsNil() {
+			h.Write([]byte{3})
+			return
+		}
+		fmt.Fprintf(h, "[%d]", v.Len())
+		for i := 0; i < v.Len(); i++ {
+			verifWalk(v.Index(i), h, seen, depth+1)
+		}
+	case reflect.Array:
+		for i := 0; i < v.Len(); i++ {
+			verifWalk(v.Index(i), h, seen, depth+1)
+		}
+	case reflect.Map:
+		if v.IsNil() {
+			h.Write([]byte{4})
+			return
+		}
+		var keys []string
+		vals := map[string]reflect.Value{}
+		it := v.MapRange()
+		for it.Next() {
+			k := fmt.Sprint(verifScalar(it.Key()))
+			keys = append(keys, k)
+			vals[k] = it.Value()
+		}
+		sort.Strings(keys)
+		for _, k := range keys {
+			h.Write([]byte(k))
+			verifWalk(vals[k], h, seen, depth+1)
+		}
+	case reflect.Func, reflect.Chan, reflect.UnsafePointer:
+		if v.IsNil() {
+			h.Write([]byte{5})
+		} else {
+			h.Write([]byte{6})
+		}
+	default:
+		fmt.Fprint(h, verifScalar(v), ";")
+	}
+}
+
+func verifScalar(v reflect.Value) interface{} {
+	switch v.Kind() {
+	case reflect.Bool:
+		return v.Bool()
+	case reflect.Int, reflect.Int8, reflect.Int16, reflect.Int32, reflect.Int64:
+		return v.Int()
+	case reflect.Uint, reflect.Uint8, reflect.Uint16, reflect.Uint32, reflect.Uint64, reflect.Uintptr:
+		return v.Uint()
+	case reflect.Float32, reflect.Float64:
+		return v.Float()
+	case reflect.String:
+		return v.String()
+	}
+	return v.Kind().String()
+}
 
 // ---------- helpers shared by harnesses (ordinary Go, interpreted) ----------
 
